@@ -235,6 +235,36 @@ func c08(c *Ctx) {
 		if !found {
 			r.Undecide("R08.C", "error-code:signed", c.pos(f.Pos()), "no return of a transport.ErrCode found in transport.ReadMsg")
 		}
+		// every four-byte frame is a code, whatever its sign: the envelope parsers are reached only through the
+		// not-equal edge of the test len(frame) == 4
+		var pass []an.Edge
+		for _, i := range an.Ifs(f) {
+			cd, ok := an.Classify(i)
+			if !ok || cd.Kind != "eq" {
+				continue
+			}
+			isLen := func(v ssa.Value) bool {
+				call, ok := v.(*ssa.Call)
+				return ok && an.CalleeName(call.Common()) == "builtin:len"
+			}
+			if kx, okx := an.ConstInt(cd.Y); okx && kx == 4 && isLen(cd.X) {
+				pass = append(pass, cd.EdgeWhen(false))
+			} else if ky, oky := an.ConstInt(cd.X); oky && ky == 4 && isLen(cd.Y) {
+				pass = append(pass, cd.EdgeWhen(false))
+			}
+		}
+		var parsers []ssa.Instruction
+		for _, cs := range an.Calls(f) {
+			if strings.HasSuffix(cs.Name, "messages.DeserializeEncrypted") || strings.HasSuffix(cs.Name, "messages.DeserializeUnencrypted") {
+				parsers = append(parsers, cs.Instr)
+			}
+		}
+		if len(pass) == 0 || len(parsers) == 0 {
+			r.Undecide("R08.C", "error-code:every-four-byte-frame", c.pos(f.Pos()), sprintf("%d test(s) of the frame length against 4, %d parser call(s)", len(pass), len(parsers)))
+		} else {
+			un := an.Guarded(f, pass, parsers)
+			r.Check(len(un) == 0, "R08.C", "error-code:every-four-byte-frame", c.pos(f.Pos()), sprintf("%d parser call(s), %d reachable with a four-byte frame (a code that is zero or positive would be parsed as a message)", len(parsers), len(un)))
+		}
 	}
 
 	// ---- R08.X: what the writers hand to the connection is header ++ message, the message whole -------------
